@@ -10,7 +10,7 @@ import os
 import sys
 from fractions import Fraction
 
-SRC = os.environ.get("BB_SRC", "/repo/src/broadbean")
+SRC = os.environ.get("BB_SRC", os.path.join(os.environ.get("BB_REPO", "/repo"), "src", "broadbean"))
 HERE = os.path.dirname(os.path.abspath(__file__))
 GEN = os.path.join(os.path.dirname(HERE), "lean", "BB", "Gen")
 
